@@ -436,3 +436,93 @@ def explore_ob(harness, max_paths=4000, max_seconds=900, models=None):
                fns=sorted(st["fns_run"]), models=sorted(st["models_used"]), axioms=sorted(st["axioms"]),
                leaf_kinds={k: sum(1 for l in res["leaves"] if l.kind == k) for k in set(l.kind for l in res["leaves"])})
     return acc
+
+
+def same_by_name(S, x, y, names, order):
+    c = fr_eq(parts(S, x)["real"], parts(S, y)["real"])
+    for v in names:
+        c = z3.And(c, fr_eq(coef1(S, x, v), coef1(S, y, v)))
+    if order == 2:
+        for v in names:
+            for w in names:
+                c = z3.And(c, fr_eq(coef2(S, x, v, w), coef2(S, y, v, w)))
+    return c
+
+
+def add_props(chk, props, replay):
+    pyfail = [d for d, p in props if p is False]
+    zs = [p for d, p in props if is_sym(p)]
+    if pyfail:
+        chk.add("; ".join(pyfail), False, replay)
+    else:
+        chk.add("all clauses (" + "; ".join(d for d, _ in props[:8]) + (" ..." if len(props) > 8 else "") + ")", z3.And(*zs) if zs else True, replay)
+
+
+def jc1(j, v):
+    v = v if isinstance(v, str) else f"v{v}"
+    vs = [x if isinstance(x, str) else f"v{x}" for x in j["vars"]]
+    for n_, x in zip(vs, j["dual"]):
+        if n_ == v:
+            return x
+    return 0.0
+
+
+def jc2(j, v, w):
+    v = v if isinstance(v, str) else f"v{v}"
+    w = w if isinstance(w, str) else f"v{w}"
+    vs = [x if isinstance(x, str) else f"v{x}" for x in j["vars"]]
+    n = len(vs)
+    for p in range(n):
+        for q in range(n):
+            if vs[p] == v and vs[q] == w:
+                return 2 * j["dual2"][p * n + q]
+    return 0.0
+
+
+def json_same_by_name(x, y, order, names=None):
+    """list of differences between two dual-number JSON records compared per name"""
+    out = []
+    vs = set(a if isinstance(a, str) else f"v{a}" for a in x["vars"]) | set(a if isinstance(a, str) else f"v{a}" for a in y["vars"])
+    if names:
+        vs |= set(names)
+    if not close(x["real"], y["real"]):
+        out.append(f"real {x['real']} vs {y['real']}")
+    for v in sorted(vs):
+        if not close(jc1(x, v), jc1(y, v)):
+            out.append(f"d/d{v} {jc1(x, v)} vs {jc1(y, v)}")
+    if order == 2:
+        for v in sorted(vs):
+            for w in sorted(vs):
+                if not close(jc2(x, v, w), jc2(y, v, w)):
+                    out.append(f"d2/d{v}d{w} {jc2(x, v, w)} vs {jc2(y, v, w)}")
+    return out
+
+
+def standard_finish(pid, ev, obs, results, tot, role_fn, bounds, rule, assumptions):
+    violations, known_lines, undecided = [], [], list(tot["undecided"])
+    n = 0
+    for f in tot["fails"]:
+        n += 1
+        if f.get("reproduced"):
+            path = C.save_replay(pid, n, f)
+            k = C.match_known(pid, role_fn(f))
+            if k:
+                known_lines.append(f"KNOWN-FINDING: property={pid} {k['what']}")
+            else:
+                violations.append(path)
+                print("counterexample:", f["ob"], role_fn(f), "::", "; ".join(f.get("mismatch", []))[:400])
+        else:
+            C.save_replay(pid, f"nonrepro-{n}", f)
+            undecided.append(f"ENCODING-MISMATCH {f['ob']}: counterexample does not reproduce natively ({f.get('mismatch') or f.get('replay_error')})")
+    for u in tot["unknown"]:
+        undecided.append("solver unknown: " + u[:160])
+    ev.cov(engine="mirsym (symbolic execution of rustc MIR regenerated from /repo) + z3 " + z3.get_version_string(),
+           functions_encoded=sorted(tot["fns"]), library_models=sorted(tot["models"]), axioms=sorted(tot["axioms"]), bounds=bounds,
+           obligations=len(obs), discharged=sum(1 for r in results if r and not r.get("error") and not r.get("fails") and not r.get("unknown") and not r.get("undecided")),
+           evaluations=tot["checks"], distinct_nontrivial=tot["paths"], rule=rule,
+           samples=[{"obligation": r["ob"], "paths": r.get("paths"), "checks": r.get("checks"), "holds": r.get("holds"), "leaf_kinds": r.get("leaf_kinds"), "wall_s": r.get("wall_s")}
+                    for r in results[:: max(1, len(results) // 12)] if r],
+           queries={"validity": tot["checks"], "valid": tot["holds"], "feasibility": tot["feas_checks"], "unknown": len(tot["unknown"])},
+           solver_time_s=round(tot["solver_s"], 2), panic_leaves=len(tot["panics"]))
+    ev.assume(*assumptions)
+    C.finish(ev, violations, undecided[:30], sorted(set(known_lines)))
